@@ -17,7 +17,7 @@ from types import SimpleNamespace
 
 import numpy as np
 
-from common import REPO, VERIF, coq_list, coq_nat, coq_z, qc, qc_list, qc_mat, sh
+from common import COQ, REPO, VERIF, coq_list, coq_nat, coq_z, qc, qc_list, qc_mat, sh, source_pins
 
 TRUSTED_BASE = [
     "Coq 8.16.1 kernel + coqc (vm_compute only inside the correspondence evaluation; no native_compute)",
@@ -69,6 +69,52 @@ SLICE = ["lib/Sums.v", "lib/QcInst.v", "C07/Model.v", "C07/Lemmas.v", "C07/Calcu
          "C07/Corr.v", "gen/C07_Gen.v"]
 PRE = ("From Coq Require Import ZArith QArith Qcanon List Bool.\nFrom AV.lib Require Import Sums QcInst.\n"
        "From AV.C07 Require Import Model Corr.\nFrom AV.gen Require Import C07_Gen.\nImport ListNotations.\n")
+
+# Functions the HAND-WRITTEN parts were written from and that the translator neither regenerates nor pins structurally:
+#  Model.assemble1/assemble2/cart_idxs (placement), Model.idpp_term/idpp_coef + Calculus.idpp_energy/idpp_grad,
+#  Corr.teval / coq_tree()'s expansion of dot and cross, the mocks of neb images, and the parts of pow / atan2 the
+#  translator reads only partially (hyper-dual exponent branch; x_val / y_val extraction).
+# (__add__, __neg__, __mul__, apply_operation, from_variable, the delegating dunders and sqrt/exp/log/acos/atan are
+#  regenerated / matched statement by statement by tr/translate_c07.py on every run.)
+PINS = [("autode/opt/coordinates/_autodiff.py", q) for q in (
+    "get_differentiable_vars", "VectorHyperDual.__init__", "VectorHyperDual._init_deriv_arrays",
+    "VectorHyperDual._check_compatible", "VectorHyperDual.copy", "VectorHyperDual.differentiate_wrt",
+    "DifferentiableMath.pow", "DifferentiableMath.atan2",
+    "DifferentiableVector3D.__init__", "DifferentiableVector3D.dot", "DifferentiableVector3D.cross")] + [
+    ("autode/opt/coordinates/primitives.py", q) for q in (
+        "_get_3d_vecs_from_atom_idxs", "Primitive.__call__", "Primitive.derivative", "Primitive.second_derivative")] + [
+    ("autode/neb/idpp.py", q) for q in (
+        "IDPP.__init__", "IDPP.__call__", "IDPP.grad", "IDPP._set_distance_matrices", "IDPP._req_distance_matrix",
+        "IDPP._distance_matrix", "IDPP._weight_matrix")] + [
+    ("autode/conformers/conf_gen.py", "_get_bond_matrix")]
+# non-Python sources Model.ff_term/ff_coef, Calculus.ff_energy/ff_grad and the Python mirrors rb_energy / Erep were read
+# from: pinned as whitespace-normalised whole files in coq/C07/pins_text.json (common.source_pins handles .py only)
+TEXT_PINS = ["autode/conformers/cconf_gen.pyx", "autode/ext/src/potentials.cpp", "autode/ext/ade_rb_opt.pyx"]
+
+
+def _text_hashes():
+    import hashlib
+    out = {}
+    for rel in TEXT_PINS:
+        try:
+            txt = open(os.path.join(REPO, rel)).read()
+            out[rel] = hashlib.sha256("\n".join(" ".join(ln.split()) for ln in txt.splitlines() if ln.strip()).encode()).hexdigest()
+        except OSError:
+            out[rel] = None
+    return out
+
+
+def text_pins_changed(update=False):
+    pfile = os.path.join(COQ, "C07", "pins_text.json")
+    cur = _text_hashes()
+    if update:
+        json.dump(cur, open(pfile, "w"), indent=1, sort_keys=True)
+        return []
+    if not os.path.exists(pfile):
+        return [k + " (no pins_text.json recorded)" for k in cur]
+    old = json.load(open(pfile))
+    return sorted(k + " (whole file)" for k in cur if old.get(k) != cur[k])
+
 
 H1 = 1e-5        # step for first differences
 H2 = 1e-3        # step for second differences of the value
@@ -1076,7 +1122,8 @@ def check_cconf_case(cconf_gen, X, bm, d0, kk, cc, ex, fixed=None):
     return fd, f(x0), G
 
 
-def stream_pairs(ctx, full):
+def stream_pairs(ctx, full, coq_full=None):
+    coq_full = full if coq_full is None else coq_full
     from autode.neb.idpp import IDPP
     import cconf_gen
     nfind = 0
@@ -1098,7 +1145,7 @@ def stream_pairs(ctx, full):
             nfind += report(ctx, "idpp|grad-vs-call", f"IDPP with {n} atoms, image {k} of {nimg} [{tag}, closest pair {rmin:.3f} A]: grad entry "
                             f"{fd.bad[0]['index']} = {fd.bad[0]['analytic']!r}, finite difference of __call__ = "
                             f"{fd.bad[0]['finite_difference']!r}", rep)
-        if n <= (4 if full else 3) and (want_coq or (full and ncoq < 40)):
+        if n <= (4 if coq_full else 3) and (want_coq or (coq_full and ncoq < 40)):
             ncoq += 1
             terms.append(f"check_idpp {n} {qc_mat(info['X'])} {qc_mat(info['C'])} {qc_mat(info['R'])} {qc(info['E'])} {qc_mat(info['G'])}")
             descr.append(rep)
@@ -1129,7 +1176,7 @@ def stream_pairs(ctx, full):
             rep["failures"] = fd.bad[:6]
             nfind += report(ctx, "cconf|dvdr-vs-v", f"cconf_gen with {n} atoms, exponent {ex} [{tag}, closest pair {rmin:.3f} A]: {fd.bad[0]['what']} "
                             f"{json.dumps({k_: v_ for k_, v_ in fd.bad[0].items() if k_ != 'what'})}", rep)
-        if n <= (4 if full else 3) and (want_coq or (full and ncoq < 40)):
+        if n <= (4 if coq_full else 3) and (want_coq or (coq_full and ncoq < 40)):
             ncoq += 1
             Km = np.where(bm == 1, kk, np.where(bm == 2, 10.0, 0.0))
             Cm = np.full((n, n), cc)
@@ -1270,14 +1317,15 @@ def load_modules():
     return A, P
 
 
-def impl_oracles(ctx, A, P, tinfo, full):
+def impl_oracles(ctx, A, P, tinfo, full, boost=False):
+    """boost: a source pin changed - the cheap implementation streams run at thorough size also in the quick tier."""
     coq = {}
     nfind = 0
     n, t, d = stream_trees(ctx, A, full)
     nfind += n
     coq["trees-qc"] = (t, d)
     ctx.log(f"expression trees: {n} failures")
-    n = stream_atan2_band(ctx, A, full)
+    n = stream_atan2_band(ctx, A, full or boost)
     nfind += n
     ctx.log(f"atan2 trees around +-pi/2: {n} failures")
     if tinfo is not None:
@@ -1288,11 +1336,11 @@ def impl_oracles(ctx, A, P, tinfo, full):
     nfind += n
     coq["placement-qc"] = (t, d)
     ctx.log(f"primitives: {n} failures")
-    n, t, d = stream_pairs(ctx, full)
+    n, t, d = stream_pairs(ctx, full or boost, coq_full=full)
     nfind += n
     coq["pairs-qc"] = (t, d)
     ctx.log(f"IDPP / cconf_gen: {n} failures")
-    n = stream_idpp_sequences(ctx, full)
+    n = stream_idpp_sequences(ctx, full or boost)
     nfind += n
     ctx.log(f"IDPP call/grad sequences on one image: {n} failures")
     n = stream_cpp(ctx, full)
@@ -1315,6 +1363,10 @@ def first_errors(log):
 
 def run(ctx):
     full = not ctx.quick
+    pins_changed = source_pins(ctx.pid, PINS) + text_pins_changed()
+    ctx.cov["source_pins"] = {"pinned": len(PINS) + len(TEXT_PINS), "changed": pins_changed}
+    if pins_changed:
+        ctx.log("source pins changed:", ", ".join(pins_changed), "- the cheap implementation streams run at thorough size")
     A, P = load_modules()
     # 1. regenerate the model from the source
     rc, out = sh(["python3", f"{VERIF}/tr/translate_c07.py", "--json"], timeout=120)
@@ -1339,7 +1391,7 @@ def run(ctx):
         ctx.cov["obligations"] += len(ctx.theorems_in("C07/Props.v"))
         ctx.cov["checker_cmd"] = "translator failed closed; proofs not attempted"
     # 3. the property's own oracles on the implementation (always: they give the concrete replays)
-    nfind, coq = impl_oracles(ctx, A, P, tinfo, full)
+    nfind, coq = impl_oracles(ctx, A, P, tinfo, full, boost=bool(pins_changed))
     # 4. model vs implementation
     corr_bad, corr_err = [], None
     if proofs_ok:
@@ -1368,6 +1420,9 @@ def run(ctx):
                            "coq_terms": [t[:1500] for _, _, t in corr_bad[:2]], "coq_error": corr_err}, found_input=False)
         else:
             ctx.log("correspondence disagreements explained by the implementation-level findings above")
+    if pins_changed and not ctx.violations:
+        ctx.violation("hand model no longer pinned to the source: " + ", ".join(pins_changed),
+                      {"kind": "source-pin", "changed": pins_changed}, found_input=False)
 
 
 def replay(ctx, obj):
